@@ -106,6 +106,11 @@ def make_variants(ctx: Ctx, q: str, md: List[Dict[str, Any]], R, allow_fused: bo
         L = V.chain_length(stripped)
         for d in range(0, L + 1):
             out.append((f"metadata_at_{d}", ast.unparse(V.place_metadata(stripped, mds, d)), "ast"))
+        if len(mds) > 1:
+            # the blocks in the opposite order, and split between the two ends of the chain
+            out.append(("metadata_reversed", ast.unparse(V.place_metadata(stripped, mds[::-1], L)), "ast"))
+            half = len(mds) // 2
+            out.append(("metadata_split", ast.unparse(V.place_metadata(V.place_metadata(stripped, mds[half:], L), mds[:half], 0)), "ast"))
         # metadata riding on expressions INSIDE the query: on a collection call (how helper libraries send it), and on a
         # tuple element the rest of the query never uses
         for kind, f in (("metadata_on_inner_collection", V.metadata_on_inner_collection), ("metadata_on_discarded_element", V.metadata_on_discarded_element)):
@@ -152,6 +157,14 @@ def run(ctx: Ctx) -> int:
                 # fusion is an extra beyond the property's wording; its TEXT is only comparable where every sub-expression is
                 # emitted once, which does not hold for injected code (one block per evaluation of the call)
                 groups.append((backend, q, make_variants(ctx, q["query"], md, R, allow_fused=not umd)))
+    # an enum and a method returning it, declared in either order / at either end
+    if not ctx.replay:
+        en = {"metadata_type": "define_enum", "namespace": "xAOD.Jet", "name": "Color", "values": ["Red", "Blue"]}
+        for k, mt in enumerate([{"metadata_type": "add_method_type_info", "type_string": "xAOD::Jet", "method_name": "color", "return_type": "xAOD::Jet::Color"},
+                                {"metadata_type": "add_method_type_info", "type_string": "xAOD::Jet", "method_name": "color", "return_type": "xAOD::Jet::Color", "tree_type": "int"}]):
+            for body in ("e.Jets('A').Select(lambda j: j.color())", "e.Jets('A').Where(lambda j: j.color() == xAOD.Jet.Color.Red).Count()"):
+                q0 = f"ds.Select(lambda e: {body})"
+                groups.append(("atlas", {"query": q0, "features": {"enum_method_order": 2, f"k{k}": 1, "x": 1}}, make_variants(ctx, q0, [en, mt], ctx.rng("c08enum", k, body))))
     for f in karg:
         w = f["witness"]
         groups.append((w["backend"], {"query": w["base"], "features": {"witness": 2, "w": 2}, "witness_of": f},
